@@ -275,6 +275,12 @@ var c06shapes = []c06shape{
 	{"GET", "/other", ""},
 	{"GET", "/v2/a/b/tags/list", "%zz"},
 	{"POST", "/v2/a/b/blobs/uploads/", "mount=" + c06dig + "&from=BAD"},
+	// page sizes at and around zero, and beyond int64
+	{"GET", "/v2/a/b/tags/list", "n=0"},
+	{"GET", "/v2/_catalog", "n=0&last=a"},
+	{"GET", "/v2/a/b/tags/list", "n=-1"},
+	{"GET", "/v2/_catalog", "n=99999999999999999999"},
+	{"GET", "/v2/a/b/referrers/" + c06dig, "n=0"},
 }
 
 func c06request() *http.Request {
